@@ -145,6 +145,12 @@ class D1:
         e = return_expr(b, self.facts, inline=False)
         flips = 0
         self.asref_view = False
+        negated = False
+        if method == "ne":
+            # a hand-written `ne`: the negation of a delegated `eq` (`!(a == b)`), or a delegated `ne` of the byte-slice impl over the same views
+            while isinstance(e, tuple) and e and e[0] == "un" and e[1] == "Not":
+                negated = not negated
+                e = e[2]
         # result may pass through Ordering::reverse / Option::map(Ordering::reverse)
         while e[0] == "call" and e[1] in ("core::cmp::Ordering::reverse",):
             flips += 1
@@ -182,7 +188,11 @@ class D1:
         targs = e[4]
         args = e[2]
         tr, _, m = orig.rpartition("::")
-        if tr not in CMP_TRAITS or m != method or m not in CMP_TRAITS[tr]:
+        if method == "ne":
+            if not (tr == "core::cmp::PartialEq" and ((m == "ne" and not negated) or (m == "eq" and negated))):
+                raise ValueError("`ne` is not the negation of the delegated equality: %s%s" % ("!" if negated else "", orig))
+            method = m
+        elif tr not in CMP_TRAITS or m != method or m not in CMP_TRAITS[tr]:
             raise ValueError("delegates to %s, not to the %s method of a comparison trait" % (orig, method))
         if len(args) != 2:
             raise ValueError("unexpected arity")
@@ -197,9 +207,9 @@ class D1:
             inner = "same"
             how = "terminal <%s as %s<%s>>" % (S, tr.rsplit("::", 1)[-1], R)
         else:
-            im, it = self.find_impl_method(tr, S, R, method)
+            im, it = self.find_impl_method(tr, S, R, "eq" if method == "ne" else method)
             if im is not None and it.get("did") is not None:
-                inner, ihow = self.orient(it["did"], method, stack + (did,))
+                inner, ihow = self.orient(it["did"], "eq" if method == "ne" else method, stack + (did,))
                 how = "via <%s as %s<%s>> (%s)" % (S, tr.rsplit("::", 1)[-1], R, inner)
             elif S in self.handles and e[0] == "ucall":
                 # generic Rhs: any instance resolves to an analysed impl of the same trait (induction)
@@ -233,6 +243,15 @@ def run(facts):
         names = [it["name"] for it in im["items"] if it["kind"].startswith("Fn")]
         allowed = CMP_TRAITS[tr]
         for nm in names:
+            if nm == "ne" and tr == "core::cmp::PartialEq":
+                it_ne = [it for it in im["items"] if it["name"] == "ne"][0]
+                n += 1
+                try:
+                    o, how = d.orient(it_ne["did"], "ne")
+                    res.ok("%s|ne" % label, loc, "ne is the negation of the delegated equality: %s" % how, nontrivial=True)
+                except ValueError as ex:
+                    res.bad("%s|ne" % label, loc, str(ex))
+                continue
             if nm not in allowed:
                 res.bad("%s|override:%s" % (label, nm), loc, "impl overrides `%s`, which this rule does not analyse (only %s may be hand-written)" % (nm, "/".join(allowed)))
         for it in im["items"]:
